@@ -293,32 +293,49 @@ def endianness(rep, rule, fam):
 
 
 # ------------------------------------------------------------------------------------------------ typestate (compact)
+def _reads_field_and_panics(body, field):
+    """does this body test self.<field> and contain a panic? (the shape of an assert_no_pending_* helper, whatever its name)"""
+    from mirlib import subexprs as _sub
+    if not any(cs.name.startswith('panic') for cs in body.calls()):
+        return False
+    for bb in body.bbs:
+        t = bb['t']
+        if t['k'] == 'switch':
+            e = body.expr_op(t['o'])
+            if any(x and x[0] == 'field' and x[2] == field for x in _sub(e)):
+                return True
+    return False
+
+
 def compact_typestate(rep, rule, prog, cg):
+    """field roles are inferred from what the begin methods do (the stack is what gets pushed, the context is what gets
+    reset to 0, the parked bool header is what gets set to Some): private field names play no part"""
     fam = Fam(prog, cg, 'compact')
     impls = [
-        ('output BytesMut', fam.W, 'write_struct_begin', 'write_struct_end', 'write_field_id_stack', 'last_write_field_id'),
-        ('output LinkedBytes', fam.L, 'write_struct_begin', 'write_struct_end', 'write_field_id_stack', 'last_write_field_id'),
-        ('output length pass', fam.LEN[0], 'struct_begin_len', 'struct_end_len', 'write_field_id_stack', 'last_write_field_id'),
-        ('input length pass', fam.LEN[1], 'struct_begin_len', 'struct_end_len', 'read_field_id_stack', 'last_read_field_id'),
-        ('input in-memory', fam.R, 'read_struct_begin', 'read_struct_end', 'read_field_id_stack', 'last_read_field_id'),
-        ('input async', fam.A, 'read_struct_begin', 'read_struct_end', 'read_field_id_stack', 'last_read_field_id'),
+        ('output BytesMut', fam.W, 'write_struct_begin', 'write_struct_end'),
+        ('output LinkedBytes', fam.L, 'write_struct_begin', 'write_struct_end'),
+        ('output length pass', fam.LEN[0], 'struct_begin_len', 'struct_end_len'),
+        ('input length pass', fam.LEN[1], 'struct_begin_len', 'struct_end_len'),
+        ('input in-memory', fam.R, 'read_struct_begin', 'read_struct_end'),
+        ('input async', fam.A, 'read_struct_begin', 'read_struct_end'),
     ]
-    for label, d, bn, en, stack, last in impls:
+    for label, d, bn, en in impls:
         b, e = d.get(bn), d.get(en)
         key = '%s|struct context|%s' % (rule, label)
         if b is None or e is None:
             rep.anchor_missing(rule, 'compact %s %s/%s' % (label, bn, en))
             continue
         sb, se = fam.sig(b), fam.sig(e)
-        push = ('eff', stack, 'push') in sb
-        reset = any(t[0] == 'set' and t[1] == last and t[2] == 'const:0' for t in sb)
-        pop = ('eff', stack, 'pop') in se
-        restore = any(t[0] == 'set' and t[1] == last for t in se)
+        stacks = [t[1] for t in sb if t[0] == 'eff' and t[2] == 'push']
+        lasts = [t[1] for t in sb if t[0] == 'set' and t[2] == 'const:0']
+        push, reset = len(stacks) == 1, len(lasts) == 1
+        pop = push and ('eff', stacks[0], 'pop') in se
+        restore = reset and any(t[0] == 'set' and t[1] == lasts[0] for t in se)
         if push and reset and pop and restore:
-            rep.ok(rule, key, '%s pushes %s and resets %s; %s pops it back' % (bn, stack, last, en), b.loc())
+            rep.ok(rule, key, '%s pushes %s and resets %s; %s pops it back' % (bn, stacks[0], lasts[0], en), b.loc())
         else:
             rep.bad(rule, key, e.loc() if (push and reset) else b.loc(),
-                    'compact %s: field-id context is not a balanced push/pop (%s: push=%s reset=%s; %s: pop=%s restore=%s) - a sibling field after a nested struct gets the wrong id' % (label, bn, push, reset, en, pop, restore))
+                    'compact %s: field-id context is not a balanced push/pop (%s: pushes %s, resets %s; %s: pop=%s restore=%s) - a sibling field after a nested struct gets the wrong id' % (label, bn, stacks, lasts, en, pop, restore))
     # pending bool, writer side (both buffers + length pass)
     for label, d, fb, wb, ends in (
         ('output BytesMut', fam.W, 'write_field_begin', 'write_bool', ['write_field_end', 'write_field_stop', 'write_struct_end', 'write_message_end']),
@@ -330,8 +347,9 @@ def compact_typestate(rep, rule, prog, cg):
         if f is None or w is None:
             rep.anchor_missing(rule, 'compact %s %s/%s' % (label, fb, wb))
             continue
-        sets = any(t[0] == 'set' and t[1] == 'pending_write_bool_field_identifier' and 'Some' in t[2] for t in fam.sig(f))
-        takes = ('eff', 'pending_write_bool_field_identifier', 'take') in fam.sig(w)
+        parked = sorted({t[1] for t in fam.sig(f) if t[0] == 'set' and 'Some' in t[2]})
+        sets = len(parked) == 1
+        takes = sets and ('eff', parked[0], 'take') in fam.sig(w)
         missing = []
         for en in ends:
             eb = d.get(en)
@@ -339,12 +357,18 @@ def compact_typestate(rep, rule, prog, cg):
                 missing.append(en + ' (absent)')
                 continue
             body = codec.effective_body(eb, cg)
-            if not any(cs.name == 'assert_no_pending_bool_write' for cs in body.calls()):
+            ok = sets and _reads_field_and_panics(body, parked[0])
+            if not ok and sets:
+                for cs in body.calls():
+                    for tb in cg.targets(cs):
+                        if tb.crate == 'pilota' and _reads_field_and_panics(tb, parked[0]):
+                            ok = True
+            if not ok:
                 missing.append(en)
         if sets and takes and not missing:
-            rep.ok(rule, key, '%s parks the bool header, %s takes it, %d closers assert it is gone' % (fb, wb, len(ends)), f.loc())
+            rep.ok(rule, key, '%s parks the bool header in %s, %s takes it, %d closers assert it is gone' % (fb, parked[0], wb, len(ends)), f.loc())
         else:
-            rep.bad(rule, key, f.loc(), 'compact %s: pending-bool typestate broken (set in %s=%s, taken in %s=%s, closers without assert: %s)' % (label, fb, sets, wb, takes, missing))
+            rep.bad(rule, key, f.loc(), 'compact %s: pending-bool typestate broken (%s parks %s, taken in %s=%s, closers without assert: %s)' % (label, fb, parked, wb, takes, missing))
     # reader side
     for label, d in (('input in-memory', fam.R), ('input async', fam.A)):
         key = '%s|pending bool|%s' % (rule, label)
@@ -353,13 +377,14 @@ def compact_typestate(rep, rule, prog, cg):
             rep.anchor_missing(rule, 'compact %s read_field_begin/read_bool' % label)
             continue
         sf = fam.sig(f)
-        nset = sum(1 for t in sf if t[0] == 'set' and t[1] == 'pending_read_bool_value' and 'Some' in t[2])
+        parked = [t[1] for t in sf if t[0] == 'set' and 'Some' in t[2]]
+        nset = len(parked) if len(set(parked)) == 1 else -1
         has_match = any(t[0] == 'match' and tuple(t[1]) == (1, 2) for t in sf)
-        takes = ('eff', 'pending_read_bool_value', 'take') in fam.sig(r)
+        takes = nset > 0 and ('eff', parked[0], 'take') in fam.sig(r)
         if nset == 2 and has_match and takes:
-            rep.ok(rule, key, 'read_field_begin parks the value for compact types 1 and 2 only, read_bool takes it', f.loc())
+            rep.ok(rule, key, 'read_field_begin parks the value (%s) for compact types 1 and 2 only, read_bool takes it' % parked[0], f.loc())
         else:
-            rep.bad(rule, key, f.loc(), 'compact %s: bool-in-header typestate broken (parked on %d arms, match on (1,2)=%s, read_bool takes=%s)' % (label, nset, has_match, takes))
+            rep.bad(rule, key, f.loc(), 'compact %s: bool-in-header typestate broken (parked %s, match on (1,2)=%s, read_bool takes=%s)' % (label, parked, has_match, takes))
     # the length-pass marker of the input protocol is settled by read_bool (generated decoders call field_begin_len then read_bool)
     key = '%s|pending bool|input length pass' % rule
     r = fam.R.get('read_bool')
@@ -367,9 +392,10 @@ def compact_typestate(rep, rule, prog, cg):
     if r is None or fl is None:
         rep.anchor_missing(rule, 'compact input read_bool / field_begin_len')
     else:
-        parks = any(t[0] == 'set' and t[1] == 'pending_read_bool_field_identifier' and 'Some' in t[2] for t in fam.sig(fl))
-        clears = any(t[0] == 'set' and t[1] == 'pending_read_bool_field_identifier' and 'None' in t[2] for t in fam.sig(r)) or ('eff', 'pending_read_bool_field_identifier', 'take') in fam.sig(r)
+        marker = sorted({t[1] for t in fam.sig(fl) if t[0] == 'set' and 'Some' in t[2]})
+        parks = bool(marker)
+        clears = parks and all(any(t[0] == 'set' and t[1] == m and 'None' in t[2] for t in fam.sig(r)) or ('eff', m, 'take') in fam.sig(r) for m in marker)
         if (not parks) or clears:
             rep.ok(rule, key, 'marker parked by field_begin_len is cleared by read_bool', r.loc())
         else:
-            rep.bad(rule, key, r.loc(), 'compact input: field_begin_len(Bool) parks pending_read_bool_field_identifier but read_bool never clears it; field_end_len then panics (assert_no_pending_bool_read) in every generated decoder with a bool field')
+            rep.bad(rule, key, r.loc(), 'compact input: field_begin_len(Bool) parks a pending-bool marker but read_bool never clears it; field_end_len then panics (assert_no_pending_bool_read) in every generated decoder with a bool field')
